@@ -132,3 +132,81 @@ PROPS['C18'] = dict(
     assumptions=E_ASSUME + ['the hint file and the rewritten files are decoded with the package\'s own readers (C11/C12 decide those)',
                             'in the model the index after an adopting Open is built by HintFold + scan of the later files, and QuiescentLiveEqualsRecovered compares it with a full scan'],
 )
+
+CRASH_CONSTS = "  Known = {Known}"
+CRASH_ASSUME = ['fault model of the property: process death keeps every written byte; power failure additionally cuts one file at a time to any length between its flushed size and its written size (and all others stay whole)',
+                'flushed = a completed Sync/msync reported by the I/O interception; creation of files and renames are assumed durable',
+                'images are taken at the entry of every intercepted I/O call (the state "between two I/O calls")',
+                'TLC explores the mechanism model exhaustively only for the bounded constants listed in mc_runs']
+
+def crash_sig(e):
+    if e.get('ev') == 'crashrec':
+        return ('crashrec', e.get('proc'), e.get('open'), e.get('label', '').split(':')[0], e.get('cont', {}).get('did'), e.get('clean'))
+    if e.get('ev') == 'call':
+        return ('call', e.get('op'))
+    return None
+
+PROPS['C03'] = dict(
+    level='model_checking',
+    mc=[xixi_mc('MC_Crash', ['RecoveredOK', 'NeverFails', 'MapSemantics', 'SyncObligations'],
+                Features='{"batch", "syncbatch", "delete", "sync", "crash", "powerloss", "torn"}', MaxMerges=0, MaxRestarts=0,
+                quick=dict(MaxOps=4, MaxFaults=1, Keys='{1, 2}', Vals='{1, 2}', BigVals='{}'),
+                thorough=dict(MaxOps=5, MaxFaults=2, Keys='{1, 2}', Vals='{1, 2}', BigVals='{}'))],
+    traces=[dict(profile='crash', spec='CrashTrace', enforce=['recok'], consts=CRASH_CONSTS, sig=crash_sig,
+                 quick_seeds=1, thorough_seeds=2)],
+    rule='distinct (crash kind, Open outcome, intercepted I/O kind at the image, continued?, clean?) tuples and distinct call kinds; trivial = none',
+    assumptions=CRASH_ASSUME,
+)
+
+PROPS['C04'] = dict(
+    level='model_checking',
+    mc=[xixi_mc('MC_BatchCrash', ['RecoveredOK', 'NeverFails', 'MapSemantics', 'SyncBatchDurable', 'FileSizeRespected'],
+                Features='{"batch", "syncbatch", "delete", "crash", "powerloss", "restart"}', MaxMerges=0,
+                quick=dict(MaxOps=5, MaxBatch=3, MaxFaults=1, MaxRestarts=1, Keys='{1, 2}', Vals='{1, 3}', BigVals='{3}'),
+                thorough=dict(MaxOps=6, MaxBatch=4, MaxFaults=2, MaxRestarts=1, Keys='{1, 2}', Vals='{1, 3}', BigVals='{3}')),
+        xixi_mc('MC_BatchMerge', ['RecoveredOK', 'NeverFails', 'MapSemantics', 'QuiescentLiveEqualsRecovered'],
+                Features='{"batch", "delete", "merge", "restart", "crash"}',
+                quick=dict(MaxOps=4, MaxBatch=3, MaxFaults=1, MaxRestarts=2, MaxMerges=1, Vals='{1, 2}', BigVals='{}'),
+                thorough=dict(MaxOps=5, MaxBatch=3, MaxFaults=1, MaxRestarts=2, MaxMerges=1, Vals='{1, 2}', BigVals='{}'))],
+    traces=[dict(profile='batchcrash', spec='CrashTrace', enforce=['recok', 'c13batch'], consts=CRASH_CONSTS, sig=crash_sig,
+                 quick_seeds=1, thorough_seeds=2),
+            dict(profile='batch', spec='EngineTrace', enforce=['open', 'vals', 'keys', 'scan', 'index'], quick_seeds=1, thorough_seeds=1),
+            dict(profile='merge', spec='EngineTrace', enforce=['open', 'vals', 'keys', 'scan', 'index', 'adopted'], quick_seeds=1, thorough_seeds=1)],
+    rule='distinct (crash kind, Open outcome, intercepted I/O kind at the image, continued?, clean?) tuples and distinct call kinds, plus distinct (op, outcome, size class, configuration) tuples of the restart/merge traces; trivial = none',
+    assumptions=CRASH_ASSUME + ['a batch is one mutation whose write set is the fold of its staged operations; "all or none" = the recovered mapping is a prefix that contains the batch entirely or not at all',
+                                'later histories (restarts, merges over batch-written records) are judged by the EngineTrace families batch and merge'],
+)
+
+PROPS['C13'] = dict(
+    level='model_checking',
+    mc=[xixi_mc('MC_Sync', ['SyncObligations', 'SyncBatchDurable', 'MapSemantics'], SyncAlways='TRUE',
+                Features='{"batch", "syncbatch", "delete", "sync", "restart"}', MaxMerges=0,
+                quick=dict(MaxOps=5), thorough=dict(MaxOps=6)),
+        xixi_mc('MC_SyncNo', ['SyncObligations', 'SyncBatchDurable'], SyncAlways='FALSE',
+                Features='{"batch", "syncbatch", "delete", "sync", "merge"}',
+                quick=dict(MaxOps=4), thorough=dict(MaxOps=5))],
+    traces=[dict(profile='sync', spec='CrashTrace', enforce=['c13always', 'c13threshold', 'c13batch', 'c13sync', 'c13rot'],
+                 consts=CRASH_CONSTS, sig=crash_sig, quick_seeds=1, thorough_seeds=2)],
+    rule='distinct call kinds per configuration (sync strategy x BytesPerSync x io); trivial = none',
+    assumptions=['flushed = a completed Sync/msync reported by the I/O interception (fio hooks); the flush inside MMap.Close is reported by an added hook line',
+                 'Threshold counts the bytes of acknowledged Put/Delete records (block-tail padding excluded, computed by the Framing rule) that lie beyond the flushed size of their file',
+                 'the Threshold strategy is not part of the exhaustive model (Always/No are); it is decided on real traces only'],
+)
+
+PROPS['C07'] = dict(
+    level='model_checking',
+    mc=[xixi_mc('MC_MergeCrash', ['RecoveredOK', 'NeverFails', 'MapSemantics', 'QuiescentLiveEqualsRecovered', 'LockDiscipline'],
+                properties=['MergeDirGone'], Features='{"merge", "delete", "crash", "restart"}',
+                quick=dict(MaxOps=3, MaxFaults=2, MaxMerges=2, MaxRestarts=1, Limit=2, Vals='{1, 2}', BigVals='{}'),
+                thorough=dict(MaxOps=4, MaxFaults=2, MaxMerges=2, MaxRestarts=2, Limit=2, Vals='{1, 2}', BigVals='{}')),
+        xixi_mc('MC_MergeCrashBatch', ['RecoveredOK', 'NeverFails', 'MapSemantics'],
+                Features='{"merge", "batch", "delete", "crash"}', tiers=['thorough'],
+                thorough=dict(MaxOps=4, MaxFaults=2, MaxMerges=1, MaxBatch=2, Limit=1, Vals='{1, 2}', BigVals='{}'))],
+    traces=[dict(profile='mergecrash', spec='CrashTrace', enforce=['recok'], consts=CRASH_CONSTS, sig=crash_sig,
+                 quick_seeds=1, thorough_seeds=2)],
+    rule='distinct (Open outcome, engine point or I/O kind at the image incl. /retry and /partial-rm variants, continued?, clean?) tuples; trivial = none',
+    assumptions=['process death only (the property): every written byte survives; images of both directories are taken before every remove / rename / remove-all / mkdir of Merge and of adoption (named engine points) and before every I/O call',
+                 'a crash inside the recursive removal of the merge directory is emulated by removing subsets of its files at the point that precedes os.RemoveAll',
+                 'second crash: every image is reopened with the interception on and every step of that retry is imaged and reopened again',
+                 'TLC explores the mechanism model (merge scan, marker, adoption one file-system operation per step, Crash anywhere, two faults) exhaustively for the bounded constants listed in mc_runs'],
+)
